@@ -51,7 +51,9 @@ var mutations = []string{"dup-name", "inherit-unknown", "inherit-concrete", "no-
 	// accepted by the analyser, refused only by builder.Build() (before 55541a167 / 510061369)
 	"view-no-partition-key", "grant-all-empty-class",
 	// reference fields of a descriptor with a bad target (accepted before the repair of F29)
-	"desc-ref-unknown", "desc-ref-abstract", "desc-ref-wdoc"}
+	"desc-ref-unknown", "desc-ref-abstract", "desc-ref-wdoc",
+	// a command parameter that is a table but not an ODoc (accepted by the analyser, refused by Build(): C16-F12)
+	"param-not-odoc"}
 
 func Mutate(r *kit.Rng, a Schema) (string, bool) {
 	start := r.Intn(len(mutations))
@@ -214,6 +216,21 @@ func apply(r *kit.Rng, a Schema, m string) bool {
 			d = append(d, DescItem{Ref: &RefF{Name: "zdref", Refs: []QRef{target}}})
 			w.w.Desc = &d
 			return true
+		}
+	case "param-not-odoc":
+		for _, w := range wss {
+			for i := range w.w.Items {
+				f := w.w.Items[i].Func
+				if f == nil || !f.Cmd {
+					continue
+				}
+				for _, o := range tabs {
+					if o.w == w.w && !o.t.Abstract && !o.nested && o.t.Inh != nil && o.t.Inh.Pkg == "sys" && o.t.Inh.Name != "ODoc" {
+						f.Param = FParam{K: "def", Q: &QRef{Name: o.t.Name}}
+						return true
+					}
+				}
+			}
 		}
 	case "nested-abstract":
 		if t := pickTab(func(t tabRef) bool { return t.nested }); t != nil {
